@@ -31,6 +31,9 @@ def plan(tier, seed):
         cfgs.append(dict(kind="wire", loss=loss, N=(n - 1 if lossy and loss != 1 else n), gaps=["S", 1, 2], order=0))
         cfgs.append(dict(kind="wire", loss=loss, N=n - 1, gaps=["S", "N", 1, 2], order=1))
     cfgs.append(dict(kind="wire", loss=None, N=n + 1, gaps=["S", 1], order=0))
+    # packets of two flows (so packet ids repeat) on one wire; and a wire reached through another wire with the same id
+    cfgs.append(dict(kind="wire", loss=None, N=n - 1, gaps=["S", 1, 2], order=0, twoflows=1))
+    cfgs.append(dict(kind="wire", loss=None, N=n - 1, gaps=["S", 1, 2], order=0, behind=1))
     for loss in (None, 0.5):
         cfgs.append(dict(kind="cable", loss=loss, N=n - 1 if loss is None else n - 2, gaps=["S", 1, 2], order=0))
     return {"cfgs": cfgs, "budget": None,
@@ -54,18 +57,36 @@ def execute(ch, cfg):
         calls.append(("U", env.now, v))
         return v
     ndir = 1 if cfg["kind"] == "wire" else 2
-    items = N.menu(cfg["gaps"], list(range(ndir)), [1])
+    items = N.menu(cfg["gaps"], list(range(2 if cfg.get("twoflows") else ndir)), [1])
     ends = []
 
     class Front:
         def put(self, pkt):
-            ends[pkt.flow_id].put(pkt)
+            ends[pkt.flow_id if ndir == 2 else 0].put(pkt)
+
+    class Relog:
+        """entry tap of the wire under test when it sits behind another wire: the arrival is what comes out of the first wire"""
+
+        def __init__(self, nxt):
+            self.nxt = nxt
+
+        def put(self, pkt):
+            a = net.by_obj.get(id(pkt))
+            net.seq += 1
+            a.seq = net.seq
+            a.t = env.now
+            self.nxt.put(pkt)
 
     def mk():
         if cfg["kind"] == "wire":
             w = Wire(env, delay_dist, loss)
             w.out = net.sink(0)
-            ends.append(w)
+            if cfg.get("behind"):
+                first = Wire(env, lambda: 1)      # same default wire id as the wire under test
+                first.out = Relog(w)
+                ends.append(first)
+            else:
+                ends.append(w)
         else:
             c = Cable(env, delay_dist, loss)
 
@@ -109,7 +130,7 @@ def execute(ch, cfg):
             res.bad("C10.once", tag + ":delivered-twice", "packet %d" % d.arr.i)
             return res
         seen.add(d.arr.i)
-        if d.out != d.arr.flow:
+        if ndir == 2 and d.out != d.arr.flow:
             res.bad("C10.cable", "Cable:delivered-to-the-wrong-end", "packet %d of direction %d came out at end %d" % (d.arr.i, d.arr.flow, d.out))
             return res
         res.ev("C10.fifo")
@@ -117,7 +138,7 @@ def execute(ch, cfg):
             res.bad("C10.fifo", tag + ":reordered", "direction %d" % d.out)
             return res
         last[d.out] = d.arr.seq
-    dirs = [[a for a in net.arrs if a.flow == x] for x in range(ndir)]
+    dirs = [[a for a in net.arrs if a.flow == x] for x in range(ndir)] if ndir == 2 else [sorted(net.arrs, key=lambda a: a.seq)]
     why = explain(dirs, calls, loss)
     res.ev("C10.law", len(net.arrs))
     if loss:
